@@ -44,6 +44,22 @@ type (
 		rInnerU
 		C float64
 	}
+	RInnerP struct {
+		A int64  `db:"a"`
+		B string `db:"b"`
+	}
+	rEP3 struct {
+		*RInnerP
+		C float64 `db:"c"`
+	}
+	RInnerPU struct {
+		A int64
+		B string
+	}
+	rEPU3 struct {
+		*RInnerPU
+		C float64
+	}
 )
 
 // column values by column name for row i
@@ -82,6 +98,9 @@ func flatten(v reflect.Value, out map[string]any, pos *[]any) {
 		f := v.Field(i)
 		sf := v.Type().Field(i)
 		if sf.Anonymous {
+			if f.Kind() == reflect.Ptr && f.IsNil() {
+				continue
+			}
 			flatten(f, out, pos)
 			continue
 		}
@@ -121,6 +140,9 @@ func TestVerifRows(t *testing.T) {
 		{"pointer-fields", true, func() any { return &rP3{} }, false},
 		{"embedded-tagged", true, func() any { return &rE3{} }, false},
 		{"embedded-untagged", false, func() any { return &rEU3{} }, false},
+		{"embedded-ptr-tagged", true, func() any { return &rEP3{} }, false},
+		{"embedded-ptr-untagged", false, func() any { return &rEPU3{} }, false},
+		{"slice-of-embedded-ptr-tagged", true, func() any { return &[]rEP3{} }, true},
 		{"slice-of-tagged", true, func() any { return &[]rT3{} }, true},
 		{"slice-of-ptr-tagged", true, func() any { return &[]*rT3{} }, true},
 		{"slice-of-untagged", false, func() any { return &[]rU3{} }, true},
